@@ -37,7 +37,8 @@ ASSUMPTIONS = ['one failing allocation per operation (pairs in thorough for mult
 def bounds(tier):
     return ('quick: cover families, trees N=5 @2/2 and N=4 @3/2 x 3 routes, leaves N=4, other families '
             'N=3; object-keyed families OO OI OU again with MORTAL key/value objects and a reference ledger '
-            '(N=4 @2/2, 3/2, leaves); thorough: all families N=6 @2/2, N=5 @3/2, 2/3, pairs of failures for update')
+            '(N=4 @2/2, 3/2, leaves); stored trees whose nodes are all ghosts (II OO fs, N=5 @2/2: allocations of the '
+            'loads inside every insert / delete); thorough: all families N=6 @2/2, N=5 @3/2, 2/3, pairs of failures for update')
 
 
 def required_guards(tier):
